@@ -2,7 +2,10 @@ module verifharness
 
 go 1.23
 
-require github.com/compose-spec/compose-go/v2 v2.0.0
+require (
+	github.com/compose-spec/compose-go/v2 v2.0.0
+	gopkg.in/yaml.v3 v3.0.1
+)
 
 require (
 	github.com/distribution/reference v0.5.0 // indirect
@@ -18,7 +21,6 @@ require (
 	golang.org/x/exp v0.0.0-20240112132812-db7319d0e0e3 // indirect
 	golang.org/x/sync v0.3.0 // indirect
 	golang.org/x/sys v0.1.0 // indirect
-	gopkg.in/yaml.v3 v3.0.1 // indirect
 )
 
 replace github.com/compose-spec/compose-go/v2 => /repo
